@@ -59,12 +59,15 @@ pub fn c19g(ctx: &Ctx, begin: &mut dyn FnMut(J)) -> Outcome {
     );
     // the declaration's own name is an identifier too (autoSql turns it into a C struct name): my_table, _t2
     let custom_table = custom.replacen(&format!("table custom{}", n), &format!("table {}{}", if n % 2 == 0 { "my_table" } else { "_t" }, n), 1);
+    // the same schema with a table comment that pushes the text past 8 KiB (a multi-byte character near the mark)
+    let custom_long = custom.replacen("\"custom \u{3b1}\"", &format!("\"custom {}\u{3b1}\u{4e2d}{}\"", "c".repeat(8150 + n % 7), " more".repeat(40 + n)), 1);
     for (label, autosql, want_text, want_count) in [
         ("generated", Some(schema.clone()), Some(schema.clone()), 3 + n),
         ("custom_snake_case_field_names", Some(custom_names.clone()), Some(custom_names.clone()), 3 + n),
         ("custom_snake_case_table_name", Some(custom_table.clone()), Some(custom_table.clone()), 3 + n),
         ("custom", Some(custom.clone()), Some(custom.clone()), 3 + n),
         ("custom_crlf", Some(custom_crlf.clone()), Some(custom_crlf.clone()), 3 + n),
+        ("custom_longer_than_8KiB", Some(custom_long.clone()), Some(custom_long.clone()), 3 + n),
         ("custom_tabs_vt_ff", Some(custom_ws.clone()), Some(custom_ws.clone()), 3 + n),
         ("custom_helper_type_then_table", Some(helper_then_table.clone()), Some(helper_then_table.clone()), 3 + n),
         ("default", None, Some(BED3.to_string()), 3),
